@@ -8,6 +8,17 @@ BASE = "cd /repo && /venv/bin/python -m pytest -ra -q -p no:cacheprovider --time
 
 # id -> dict(level, text, note, technique, design_ref, engine)
 CLAIMS = {
+ "C15": dict(
+  level="model_checking",
+  text="Keys.tla states KeysJudge (support table; files of the requested type and encoding that belong together) and "
+       "ConvertJudge (array = fixed-width X||Y / raw key, length variable = sizeof(array), layout options do not change the "
+       "literals); the spec pads coordinates that the harness supplies as minimal big-endian bytes. Keys_MC enumerates the "
+       "whole scenario space (type x encoding x formats; type x leading-zero shape x layout options) and checks the fixed "
+       "width of the specified array; every emitted scenario is replayed into the real keys/convert, with keys SEARCHED to "
+       "have 0..2 leading zero bytes in X / Y; events are judged by TLC.",
+  note="Trusted: TLC, cryptography loaders/sign/verify. Needs fixes F2 (7b1c28e), F3 (bca0220).",
+  technique="TLA+ spec (Keys.tla) + TLC enumeration of the scenario space + replay into real keys/convert with searched key shapes + TLC trace validation",
+  design_ref="DESIGN.md 4.14, 5 (C15)", engine="tlc"),
  "C06": dict(
   level="model_checking",
   text="Encrypt.tla states the artifact relation with a symbolic AEAD (info shape: bstr-wrapped tag-96 COSE_Encrypt, "
